@@ -70,7 +70,7 @@ theorem defrag_datIdx (db : DB) (h : Cached db) : (defrag db).datIdx = 1 - db.da
   show 1 - d'.datIdx = _
   rw [hd'i]
 
-theorem defrag_diskIndex (d : DB) (h : Cached d) (hwf : IndexWF eg d.index) :
+theorem defrag_diskIndex (d : DB) (h : Cached d) (hwf : IndexWF d.eager d.index) :
     diskIndex (defrag d).fs = mapV strip (layout (u32 (d.dataSeq + 1)) 4 d.index) := by
   obtain ⟨_, _, d3, d4, d5, _, _⟩ := defrag_disk d h
   have hS : u32 (d.dataSeq + 1) < 2^32 := u32_lt _
@@ -91,7 +91,7 @@ theorem defrag_diskIndex (d : DB) (h : Cached d) (hwf : IndexWF eg d.index) :
   simp only [applyEntriesL, List.foldl_nil, hrecs]
   exact isetAll_nil_nodup _ hkeys
 
-theorem inv2_defrag (db : DB) (h : Cached db) (hwf : IndexWF eg db.index) : Inv2 (defrag db) := by
+theorem inv2_defrag (db : DB) (h : Cached db) (hwf : IndexWF db.eager db.index) : Inv2 (defrag db) := by
   obtain ⟨_, d2, d3, d4, d5, d6, d7⟩ := defrag_disk db h
   obtain ⟨_, _, _, _, m5⟩ := defrag_more db h
   have hdi := defrag_datIdx db h
@@ -159,7 +159,7 @@ structure Inv3 (db : DB) : Prop where
   inv : DiskInv db
   i2 : Inv2 db
 
-theorem step_inv3 (db : DB) (h : Inv3 db) (op : Op) (ok : OpOK eg op) (fits : OpFits db op) : Inv3 (step db op) := by
+theorem step_inv3 (db : DB) (h : Inv3 db) (op : Op) (ok : OpOK db.eager op) (fits : OpFits db op) : Inv3 (step db op) := by
   refine ⟨step_inv db h.inv op ok fits, ?_⟩
   have inv := h.inv
   have i2 := h.i2
@@ -170,7 +170,7 @@ theorem step_inv3 (db : DB) (h : Inv3 db) (op : Op) (ok : OpOK eg op) (fits : Op
     unfold putExt
     rw [if_neg (notFailed inv.cached)]
     obtain ⟨e, n, m, hmp⟩ := memput_same db k (newRec v 0)
-    have hM := putExt_addPending_inv db inv k v 0 a b (by decide) (by decide)
+    have hM := putExt_addPending_inv db inv k v 0 a b (by decide) (zeroFlags_ok _)
     refine afterChange_inv2 _ k hM ?_ c (by rw [hmp]; exact inv.nv)
     rw [addPending_same, hmp]; exact inv2_same i2 rfl rfl rfl rfl
   | putExt k v f =>
@@ -232,17 +232,19 @@ theorem step_inv3 (db : DB) (h : Inv3 db) (op : Op) (ok : OpOK eg op) (fits : Op
     exact inv2_same i2 rfl rfl rfl rfl
   | reopen a b c => exact absurd ok (by simp [OpOK])
 
-theorem run_inv3 (ops : List Op) (db : DB) (h : Inv3 db) (ok : ∀ op ∈ ops, OpOK eg op) (fits : RunFits db ops) :
+theorem run_inv3 (ops : List Op) (db : DB) (h : Inv3 db) (ok : ∀ op ∈ ops, OpOK db.eager op) (fits : RunFits db ops) :
     Inv3 (run db ops) := by
   induction ops generalizing db with
   | nil => exact h
   | cons op t ih =>
     exact ih (step db op) (step_inv3 db h op (ok op List.mem_cons_self) fits.1)
-      (fun o ho => ok o (List.mem_cons_of_mem _ ho)) fits.2
+      (fun o ho => by
+        rw [step_eager db op h.inv.cached (ok op List.mem_cons_self)]; exact ok o (List.mem_cons_of_mem _ ho))
+      fits.2
 
 theorem fresh_inv3 (load : Bool) (opts : Opts) : Inv3 (openDB {} false load opts eg) := by
   refine ⟨fresh_inv load opts, ?_⟩
-  have e : openDB {} false load opts eg = { fs := {}, volatile := false, opts := opts, dataSeq := 1 } := by
+  have e : openDB {} false load opts eg = { fs := {}, volatile := false, opts := opts, dataSeq := 1, eager := eg } := by
     cases load <;> rfl
   rw [e]
   exact ⟨rfl, Or.inl rfl, by intro kr h; cases h⟩
